@@ -95,6 +95,23 @@ def run_case(ctx, res, tag, text, cmd, nlay, stdin_cmds=None):
     return first
 
 
+def decorate(rng, text):
+    """posting-level dates and notes on some posting lines (a primary date, an auxiliary date, both), a transaction-level
+    auxiliary date, a code and a state mark on some transactions: fields that only some reports (xml, csv, emacs, print) show"""
+    out = []
+    for l in text.split('\n'):
+        if re.match(r'^    \S.*\S  +\S', l) and ';' not in l and rng.random() < 0.3:
+            k = rng.randrange(4)
+            d1 = '2020/%02d/%02d' % (rng.randrange(1, 13), rng.randrange(1, 29))
+            d2 = '2020/%02d/%02d' % (rng.randrange(1, 13), rng.randrange(1, 29))
+            l += '  ; ' + ['[%s]' % d1, '[=%s]' % d2, '[%s=%s]' % (d1, d2), 'note :tag%d:' % rng.randrange(3)][k]
+        elif re.match(r'^\d{4}/\d\d/\d\d x\d+$', l) and rng.random() < 0.3:
+            d, p = l.split(' ')
+            l = d + rng.choice(['', '=2020/%02d/%02d' % (rng.randrange(1, 13), rng.randrange(1, 29))]) + rng.choice([' ', ' * ', ' ! ']) + rng.choice(['', '(c%d) ' % rng.randrange(99)]) + p
+        out.append(l)
+    return '\n'.join(out)
+
+
 def mutate(rng, text):
     b = bytearray(text.encode('utf-8'))
     for _ in range(rng.randrange(1, 6)):
@@ -159,7 +176,12 @@ def run(ctx, n_override=None):
             base = X.render_journal(c01.gen_journal(rng)) if rng.random() < 0.6 else X.render_journal(c09.gen_history(rng)[0])
             text = mutate(rng, base)
             tag = 'mut'
+        if tag in ('c01', 'c02', 'c09') and rng.random() < 0.35:
+            text = decorate(rng, text)
+            tag += '+dates'
         cmd = list(rng.choice(COMMANDS))
+        if tag.endswith('+dates') and rng.random() < 0.5:
+            cmd = list(rng.choice([['xml'], ['csv'], ['emacs'], ['print'], ['reg', '--aux-date'], ['xml', '--aux-date'], ['print', '--raw']]))
         if tag == 'c20' and rng.random() < 0.5:
             cmd = list(rng.choice([['bal', '--time-report'], ['bal', '--time-report', '--flat'], ['reg'], ['bal', '--day-break']]))
         first = run_case(ctx, res, tag, text, cmd, nlay)
